@@ -129,6 +129,8 @@ type Engine struct {
 	CheckNarrow  bool      // emit 'narrow' obligations for value-changing integer conversions
 	AbstractConc bool      // go statements ignored, channels opaque (constructor postconditions only)
 	OwnCheck     bool      // ownership discipline of deep copies (C17)
+	ShareCheck   bool      // sharing discipline of codecs (C18)
+	Share        *shareInfo
 	ownAlloc0    *smt.Term // allocation counter at entry
 	quiet        int
 	noAssume     int // inside quantifier bodies side facts would capture the bound variable
@@ -258,6 +260,7 @@ func (e *Engine) load(st *State, p Val, t types.Type) Val {
 	}
 	e.wrapPtr(&out)
 	e.assumeLoaded(st, out)
+	e.shareLoaded(st, ref, out)
 	return out
 }
 
